@@ -100,7 +100,12 @@ def regrid(ctx, rng, xr, utils):
     rec = ctx.rec
     x, stored, lnames = source(rng, xr)
     cd = x.attrs.pop("_coord_dtype")
-    T = 3e4 if cd == "float32" else 1.0      # float32 coordinates: interpolation weights carry ~1e-7
+    # float32 coordinates: the interpolation weights are formed from single-precision labels (incl. label +- 360 across
+    # the seam), i.e. carry eps32 * 360 / bin width; T scales every value tolerance (coordinates stay bit-exact)
+    T = 1.0
+    if cd == "float32":
+        d_ = np.sort(x.dir.values.astype("float64"))
+        T = max(3e4, 4e-7 * 360.0 / max(np.diff(d_).min() if d_.size > 1 else 360.0, 1e-3) / 1e-9)
     if stored != "dup360" and x.sizes["dir"] >= 6 and rng.random() < 0.15:
         # source sector grid: one or two adjacent bins missing (not among the first two stored labels, which define
         # the bin width), so that the gap across the seam / inside the grid differs from the bin width
@@ -176,7 +181,7 @@ def regrid(ctx, rng, xr, utils):
         sc = max(np.abs(ei).max(), 1e-300)
         # identity on the source grid
         if mode == "identity":
-            ok, worst = close(eo, ei, 1e-12 * T, atol=1e-12 * T * sc)
+            ok, worst = close(eo, ei, 1e-12 if T == 1.0 else 1e-9 * T, atol=(1e-12 if T == 1.0 else 1e-9 * T) * sc)
             (rec.ok("identity", key) if ok else rec.bad("identity", key, dict(det, position=p, worst_over_tol=worst, input=ei, output=eo), "regrid-not-identity-on-source-grid"))
             continue
         # non-negativity, zero above the highest source frequency
@@ -209,7 +214,10 @@ def rotate(ctx, rng, xr):
     rec = ctx.rec
     x, stored, lnames = source(rng, xr, exact=True)
     cd = x.attrs.pop("_coord_dtype")
-    T = 3e4 if cd == "float32" else 1.0
+    T = 1.0
+    if cd == "float32":
+        d_ = np.sort(x.dir.values.astype("float64"))
+        T = max(3e4, 4e-7 * 360.0 / max(np.diff(d_).min() if d_.size > 1 else 360.0, 1e-3) / 1e-9)
     if stored == "dup360":
         x = x.isel(dir=slice(0, -1))
         stored = "sorted"
